@@ -189,3 +189,19 @@ Proof. apply linear_trend. exact linreg_exact_on_affine. Qed.
 (* ---------- the leaf kind of the code as it is (Gen.spline_returns_float, regenerated from /repo) ---------- *)
 Lemma leaf_code (m : method) : leaf_F m = @TF PrimFloat.float.
 Proof. destruct m; reflexivity. Qed.
+
+(* ---------- dict-valued attributes (Gen.dict_paths_followed, regenerated from /repo) ---------- *)
+(* when the path followers index into dicts, a dict behaves exactly like an attribute dict: same children,
+   same updates, same well-formedness -- so every theorem of this development covers dict shapes *)
+Lemma dict_followed {V} (fs : list (string * tree V)) (s : string) (x : tree V) :
+  dictok = true ->
+  child (KS s) (TD fs) = child (KS s) (TO fs) /\
+  put (KS s) x (TD fs) = Some (TD (assoc_set s x fs)) /\
+  wf (TD fs) = wf (TO fs).
+Proof. intro D. simpl. rewrite D. repeat split. Qed.
+
+(* when they do not (getattr on a dict raises), a float below a dict makes every off-node query raise:
+   the walk reports the path, object_for_path cannot follow it *)
+Lemma dict_not_followed {V} (fs : list (string * tree V)) (s : string) :
+  dictok = false -> child (KS s) (TD fs) = None /\ wf (TD fs) = false.
+Proof. intro D. simpl. rewrite D. split; reflexivity. Qed.
